@@ -181,7 +181,8 @@ func runSeqSpace(w *mc.Worker, sp *seqSpace, body func(c *seqCase, bal env.Bal))
 // attribute runs every proper prefix of the script on the real interpreter and splits the
 // postings of the whole run per statement. ok is false when the whole run failed or when
 // some prefix's postings do not extend the previous prefix's (C09's subject, not reported here).
-func attribute(c *seqCase, vars map[string]string, bal env.Bal, whole *Out) (per [][]P, ok bool) {
+func attribute(c *seqCase, vars map[string]string, oc *originCase, whole *Out) (per [][]P, ok bool) {
+	bal := oc.Bal
 	if whole.Err != nil || whole.Panic != "" {
 		return nil, false
 	}
@@ -197,7 +198,7 @@ func attribute(c *seqCase, vars map[string]string, bal env.Bal, whole *Out) (per
 			if !good {
 				return nil, false
 			}
-			o := RunReal(pr, vars, env.New(env.Exact, bal, nil), nil)
+			o := RunReal(pr, vars, env.New(env.Exact, bal, oc.Meta), oc.Flags)
 			if o.Err != nil || o.Panic != "" {
 				return nil, false
 			}
@@ -320,6 +321,19 @@ func varOps() []op {
 			return sendAllS(U, &gen.SrcCapped{Cap: v("cap"), From: lst(sa("a"), sa("b"))}, da("x"))
 		}},
 		{"send $cap b->a", 0, func() gen.Stmt { return &gen.Send{Sent: sent("cap"), Src: sa("b"), Dst: da("a")} }},
+		// arithmetic ON the shared variables (the left operand is the variable itself)
+		{"send $amt-[1] world->x", 0, func() gen.Stmt {
+			return &gen.Send{Sent: &gen.SentLit{E: &gen.Infix{Op: "-", L: v("amt"), R: gen.Mon(U, "1")}}, Src: sa("world"), Dst: da("x")}
+		}},
+		{"send $amt+$cod world->x", 0, func() gen.Stmt {
+			return &gen.Send{Sent: &gen.SentLit{E: &gen.Infix{Op: "+", L: v("amt"), R: v("cod")}}, Src: sa("world"), Dst: da("x")}
+		}},
+		{"send9 {max $cap-[4] a, max $cap b, world}->x", 0, func() gen.Stmt {
+			return sendN(U, "9", lst(&gen.SrcCapped{Cap: &gen.Infix{Op: "-", L: v("cap"), R: gen.Mon(U, "4")}, From: sa("a")}, &gen.SrcCapped{Cap: v("cap"), From: sa("b")}, sa("world")), da("x"))
+		}},
+		{"send9 world->{max $amt-$cap+$cod x, y}", 0, func() gen.Stmt {
+			return sendN(U, "9", sa("world"), ord(&gen.Infix{Op: "+", L: &gen.Infix{Op: "-", L: v("amt"), R: v("cap")}, R: v("cod")}))
+		}},
 	}
 }
 
@@ -365,6 +379,166 @@ func runVarSeqSpace(w *mc.Worker, name string, minLen, maxLen int, body func(c *
 				}
 				bal := env.Bal{"a": {"USD": as[in.Choose(len(as))]}, "b": {"USD": bs[in.Choose(len(bs))]}}
 				body(c, vars, bal)
+			})
+		})
+	})
+}
+
+// edgeOps: statements about edge relations that the core alphabet does not contain (an overdraft
+// bound of exactly zero or below, an account paying itself, sources listed after a capped @world,
+// an account whose name merely starts with "world"), plus the feeders they need. wf = world:fees.
+func edgeOps() []op {
+	U := "USD"
+	wf := "world:fees"
+	half := func(a, b string) gen.Dest {
+		return &gen.DstAllot{Items: []*gen.DstAllotItem{{A: gen.Port("1/2"), To: &gen.To{D: da(a)}}, {A: gen.Port("1/2"), To: &gen.To{D: da(b)}}}}
+	}
+	return []op{
+		{"send3 a+od0->x", 0, func() gen.Stmt { return sendN(U, "3", over("a", U, "0"), da("x")) }},
+		{"send3 a+od-1->x", 0, func() gen.Stmt { return sendN(U, "3", over("a", U, "-1"), da("x")) }},
+		{"send* a+od0->x", 0, func() gen.Stmt { return sendAllS(U, over("a", U, "0"), da("x")) }},
+		{"send5 {max2 world, b}->x", 0, func() gen.Stmt {
+			return sendN(U, "5", lst(&gen.SrcCapped{Cap: gen.Mon(U, "2"), From: sa("world")}, sa("b")), da("x"))
+		}},
+		{"send2 a->a", 0, func() gen.Stmt { return sendN(U, "2", sa("a"), da("a")) }},
+		{"send* {a b}->{1/2 a, 1/2 x}", 0, func() gen.Stmt { return sendAllS(U, lst(sa("a"), sa("b")), half("a", "x")) }},
+		{"send4 {a b}->{max1 b, a}", 0, func() gen.Stmt {
+			return sendN(U, "4", lst(sa("a"), sa("b")), &gen.DstInorder{Clauses: []*gen.DstClause{{Cap: gen.Mon(U, "1"), To: &gen.To{D: da("b")}}}, Remaining: &gen.To{D: da("a")}})
+		}},
+		{"send3 wf->x", 0, func() gen.Stmt { return sendN(U, "3", sa(wf), da("x")) }},
+		{"send* wf->x", 0, func() gen.Stmt { return sendAllS(U, sa(wf), da("x")) }},
+		{"save3 a", 0, func() gen.Stmt { return saveN(U, "3", "a") }},
+		{"save2 world", 0, func() gen.Stmt { return saveN(U, "2", "world") }},
+		// feeders
+		{"send2 world->b", 0, func() gen.Stmt { return sendN(U, "2", sa("world"), da("b")) }},
+		{"send2 world->a", 0, func() gen.Stmt { return sendN(U, "2", sa("world"), da("a")) }},
+		{"send1 a->x", 0, func() gen.Stmt { return sendN(U, "1", sa("a"), da("x")) }},
+		{"send3 {a b}->x", 0, func() gen.Stmt { return sendN(U, "3", lst(sa("a"), sa("b")), da("x")) }},
+		{"send* a->x", 0, func() gen.Stmt { return sendAllS(U, sa("a"), da("x")) }},
+	}
+}
+
+// runEdgeSeqSpace: all sequences of minLen..maxLen statements of edgeOps x sheets a in {0,3,5,-2},
+// b in {0,2}, world:fees in {0,6}.
+func runEdgeSeqSpace(w *mc.Worker, name string, minLen, maxLen int, body func(c *seqCase, bal env.Bal)) {
+	ops := edgeOps()
+	w.Stage(name, fmt.Sprintf("all sequences of %d..%d statements out of %d about edge relations (overdraft bound 0 / negative, an account paying itself, sources after a capped @world, an account named world:fees, saving exactly the balance) x sheets a in {0,3,5,-2}, b in {0,2}, world:fees in {0,6}", minLen, maxLen, len(ops)), func() {
+		w.Outer(name+"/seq", 0, func(o *mc.Explorer) {
+			n := minLen + o.Choose(maxLen-minLen+1)
+			c := &seqCase{Prog: &gen.Program{}}
+			for i := 0; i < n; i++ {
+				p := ops[o.Choose(len(ops))]
+				c.Stmts = append(c.Stmts, p.Mk())
+				c.Names = append(c.Names, p.Name)
+			}
+			c.Prog.Stmts = c.Stmts
+			c.Text = gen.Text(c.Prog)
+			if !w.Mine(c.Text) {
+				return
+			}
+			w.Owned()
+			pr, ok := mustParse(w, c.Text)
+			if !ok {
+				return
+			}
+			c.PR = pr
+			as, bs, fs := bigs(0, 3, 5, -2), bigs(0, 2), bigs(0, 6)
+			w.Inner(0, func(in *mc.Explorer) {
+				bal := env.Bal{"a": {"USD": as[in.Choose(len(as))]}, "b": {"USD": bs[in.Choose(len(bs))]}, "world:fees": {"USD": fs[in.Choose(len(fs))]}}
+				body(c, bal)
+			})
+		})
+	})
+}
+
+// originOps: statements over TWO assets of the same accounts, some of them taking their amount
+// from a variable computed by balance() / overdraft() / meta() at the start of the script.
+func originOps() []op {
+	U, E := "USD", "EUR"
+	v := func(n string) gen.Expr { return gen.V(n) }
+	sent := func(n string) gen.Sent { return &gen.SentLit{E: v(n)} }
+	return []op{
+		{"send $bu a->x", 0, func() gen.Stmt { return &gen.Send{Sent: sent("bu"), Src: sa("a"), Dst: da("x")} }},
+		{"sendEUR5 a->x", 0, func() gen.Stmt { return sendN(E, "5", sa("a"), da("x")) }},
+		{"sendEUR5 {a b}->x", 0, func() gen.Stmt { return sendN(E, "5", lst(sa("a"), sa("b")), da("x")) }},
+		{"send4 a+od3->x", 0, func() gen.Stmt { return sendN(U, "4", over("a", U, "3"), da("x")) }},
+		{"sendEUR4 a+od3->x", 0, func() gen.Stmt { return sendN(E, "4", over("a", E, "3"), da("x")) }},
+		{"sendEUR* a->x", 0, func() gen.Stmt { return sendAllS(E, sa("a"), da("x")) }},
+		{"send* a+od3->x", 0, func() gen.Stmt { return sendAllS(U, over("a", U, "3"), da("x")) }},
+		{"send4 {a b}->x", 0, func() gen.Stmt { return sendN(U, "4", lst(sa("a"), sa("b")), da("x")) }},
+		{"send $be a->b", 0, func() gen.Stmt { return &gen.Send{Sent: sent("be"), Src: sa("a"), Dst: da("b")} }},
+		{"send $ou world->a", 0, func() gen.Stmt { return &gen.Send{Sent: sent("ou"), Src: sa("world"), Dst: da("a")} }},
+		{"send2 $ma->x", 0, func() gen.Stmt { return sendN(U, "2", &gen.SrcAccount{E: v("ma")}, da("x")) }},
+		{"send2 b->$ma", 0, func() gen.Stmt { return sendN(U, "2", sa("b"), &gen.DstAccount{E: v("ma")}) }},
+		{"save $bu a", 0, func() gen.Stmt { return &gen.Save{Sent: sent("bu"), Acct: gen.Acct("a")} }},
+		{"saveEUR2 a", 0, func() gen.Stmt { return saveN(E, "2", "a") }},
+	}
+}
+
+var originDecls = map[string]func() *gen.VarDecl{
+	"bu": func() *gen.VarDecl {
+		return &gen.VarDecl{Type: &gen.TypeName{Name: "monetary"}, Name: gen.V("bu"), Origin: &gen.Call{Name: "balance", Args: []gen.Expr{gen.Acct("a"), gen.Asset("USD")}}}
+	},
+	"be": func() *gen.VarDecl {
+		return &gen.VarDecl{Type: &gen.TypeName{Name: "monetary"}, Name: gen.V("be"), Origin: &gen.Call{Name: "balance", Args: []gen.Expr{gen.Acct("a"), gen.Asset("EUR")}}}
+	},
+	"ou": func() *gen.VarDecl {
+		return &gen.VarDecl{Type: &gen.TypeName{Name: "monetary"}, Name: gen.V("ou"), Origin: &gen.Call{Name: "overdraft", Args: []gen.Expr{gen.Acct("a"), gen.Asset("USD")}}}
+	},
+	"ma": func() *gen.VarDecl {
+		return &gen.VarDecl{Type: &gen.TypeName{Name: "account"}, Name: gen.V("ma"), Origin: &gen.Call{Name: "meta", Args: []gen.Expr{gen.Acct("b"), gen.Str("peer")}}}
+	},
+}
+
+// originCase: the inputs of one execution of the origin space.
+type originCase struct {
+	Bal   env.Bal
+	Meta  env.Meta
+	Flags map[string]struct{}
+}
+
+// runOriginSeqSpace: all sequences of minLen..maxLen statements of originOps, the variables they
+// use declared with their origins, x sheets a/USD in {0,5,-20}, a/EUR in {0,7,-20}, b/USD = b/EUR
+// in {0,10} x the metadata value behind $ma (peerVals; the entry may also be absent).
+func runOriginSeqSpace(w *mc.Worker, name string, minLen, maxLen int, peerVals []string, body func(c *seqCase, oc *originCase)) {
+	ops := originOps()
+	w.Stage(name, fmt.Sprintf("all sequences of %d..%d statements out of %d over two assets of the same accounts with amounts / accounts from balance(), overdraft() and meta() variables x sheets a/USD in {0,5,-20}, a/EUR in {0,7,-20}, b in {0,10} x %d values of the metadata entry", minLen, maxLen, len(ops), len(peerVals)), func() {
+		w.Outer(name+"/seq", 0, func(o *mc.Explorer) {
+			n := minLen + o.Choose(maxLen-minLen+1)
+			c := &seqCase{Prog: &gen.Program{}}
+			for i := 0; i < n; i++ {
+				p := ops[o.Choose(len(ops))]
+				c.Stmts = append(c.Stmts, p.Mk())
+				c.Names = append(c.Names, p.Name)
+			}
+			c.Prog.Stmts = c.Stmts
+			usesMeta := false
+			for _, nm := range usedVars(c.Prog) {
+				c.Prog.Vars = append(c.Prog.Vars, originDecls[nm]())
+				usesMeta = usesMeta || nm == "ma"
+			}
+			c.Text = gen.Text(c.Prog)
+			if !w.Mine(c.Text) {
+				return
+			}
+			w.Owned()
+			pr, ok := mustParse(w, c.Text)
+			if !ok {
+				return
+			}
+			c.PR = pr
+			au, ae, bs := bigs(0, 5, -20), bigs(0, 7, -20), bigs(0, 10)
+			w.Inner(0, func(in *mc.Explorer) {
+				b := bs[in.Choose(len(bs))]
+				oc := &originCase{Flags: map[string]struct{}{"experimental-overdraft-function": {}}}
+				oc.Bal = env.Bal{"a": {"USD": au[in.Choose(len(au))], "EUR": ae[in.Choose(len(ae))]}, "b": {"USD": b, "EUR": b}}
+				if usesMeta {
+					pv := peerVals[in.Choose(len(peerVals))]
+					if pv != "\x00absent" {
+						oc.Meta = env.Meta{"b": {"peer": pv}}
+					}
+				}
+				body(c, oc)
 			})
 		})
 	})
